@@ -723,7 +723,6 @@ func sameHandle(hd *keyset.Handle, items []keycat.Item, usePub bool) error {
 
 func keysetSection(x *h.X) {
 	units := keycat.Units()
-	ios := keycat.IOs()
 	n := 1 + x.Choose("size-1", 3)
 	th := x.Thorough()
 	var idx []int
@@ -775,6 +774,32 @@ func keysetSection(x *h.X) {
 		it.Status, it.Primary = st[i], i == prim
 		items = append(items, it)
 	}
+	ios := keycat.IOs()
+	// which writer/reader pairs: size 1 -> all; larger: a rotating selection (thorough: more)
+	var sel []int
+	switch {
+	case n == 1:
+		for i := range ios {
+			sel = append(sel, i)
+		}
+	default:
+		k := 3
+		if th && n == 2 {
+			k = 9
+		}
+		base := (u1*7 + idx[1]*13 + prim*5 + int(st[0])*3 + int(st[n-1])) % len(ios)
+		for j := 0; j < k; j++ {
+			sel = append(sel, (base+j*(len(ios)/k+1))%len(ios))
+		}
+	}
+	judgeKeyset(x, items, sel)
+}
+
+// judgeKeyset builds the original handle from key objects, sends it through the selected writer/reader
+// pairs and compares the copy (entries, KeysetInfo, Public(), primitives) with the original.
+func judgeKeyset(x *h.X, items []keycat.Item, sel []int) {
+	ios := keycat.IOs()
+	n := len(items)
 	cfg := describe(items)
 	orig, err := keycat.BuildHandle(items)
 	if err != nil {
@@ -818,23 +843,6 @@ func keysetSection(x *h.X) {
 			failf(x, "public-mismatch", "%s: Public(): %v (keys must equal the independently derived public keys, same IDs/status/primary/order)", cfg, err)
 		}
 	}
-	// which writer/reader pairs: size 1 -> all; larger: a rotating selection (thorough: more)
-	var sel []int
-	switch {
-	case n == 1:
-		for i := range ios {
-			sel = append(sel, i)
-		}
-	default:
-		k := 3
-		if th && n == 2 {
-			k = 9
-		}
-		base := (u1*7 + idx[1]*13 + prim*5 + int(st[0])*3 + int(st[n-1])) % len(ios)
-		for j := 0; j < k; j++ {
-			sel = append(sel, (base+j*(len(ios)/k+1))%len(ios))
-		}
-	}
 	interopDone := false
 	for _, ii := range sel {
 		io := ios[ii]
@@ -875,7 +883,7 @@ func keysetSection(x *h.X) {
 			}
 		}
 		// primitives interoperate (once per keyset for multi-key keysets; every pair for single keys of cheap classes)
-		if sameClass && items[0].Class() != keycat.ClassNone && (!interopDone || (n == 1 && cheap(items[0]))) {
+		if sameClass && items[0].Class() != keycat.ClassNone && !(allPub && twin == nil) && (!interopDone || (n == 1 && cheap(items[0]))) {
 			interopDone = true
 			err := keycat.Interop(items[0].Class(), orig, cp, twin)
 			switch {
@@ -890,6 +898,58 @@ func keysetSection(x *h.X) {
 		}
 	}
 	x.NonTrivial()
+}
+
+// rsaOddSection: RSA public keys (all four RSA key types) whose modulus size is not a multiple of 8 or sits at a
+// byte boundary, as keysets through every writer/reader pair; plus the embedded real 2049/2055-bit keys as
+// private keysets (Public(), primitives).
+func rsaOddSection(x *h.X) {
+	fam := keycat.ByName(h.Pick(x, "family", []string{"RsaSsaPkcs1", "RsaSsaPss", "JwtRsaSsaPkcs1", "JwtRsaSsaPss"}))
+	bitsDom := []int{2049, 2055}
+	if x.Thorough() {
+		bitsDom = []int{2049, 2050, 2055, 2056, 2057}
+	}
+	bits := h.Pick(x, "modulus-bits", bitsDom)
+	rep := x.Choose("variant-rep", fam.NumReps())
+	half := h.Pick(x, "keyset", []string{"public", "private"})
+	p, v, err := keycat.RSAParams(fam, bits, rep)
+	if err != nil {
+		failf(x, "key-construct:"+fam.Name, "%s %d bits: NewParameters: %v", fam.Name, bits, err)
+		return
+	}
+	cases, err := fam.Keys(p, v, 0x01020304, true)
+	if err != nil || len(cases) == 0 {
+		failf(x, "key-construct:"+fam.Name, "%s %d bits: %v", fam.Name, bits, err)
+		return
+	}
+	var items []keycat.Item
+	for i, kc := range cases {
+		if half == "private" && kc.Key == nil {
+			continue
+		}
+		it := keycat.Item{KC: kc, Public: half == "public", Status: tinkpb.KeyStatusType_ENABLED, ID: kc.ID, Primary: len(items) == 0}
+		if !ref.KSHasIDRequirement(kc.Variant) {
+			it.ID = posIDs[0] + uint32(i)
+		}
+		// one-key keyset of every case
+		one := it
+		one.Primary = true
+		sel := make([]int, len(keycat.IOs()))
+		for j := range sel {
+			sel[j] = j
+		}
+		judgeKeyset(x, []keycat.Item{one}, sel)
+		if len(items) == 0 || ref.KSHasIDRequirement(kc.Variant) == false {
+			items = append(items, it)
+		}
+	}
+	if len(items) == 0 {
+		x.Outcome("rsa-odd/no-private-key-of-this-size")
+		return
+	}
+	if len(items) > 1 {
+		judgeKeyset(x, items, []int{0, 1, 3, 6, 7, 9, 20, 40, 60})
+	}
 }
 
 func cheap(it keycat.Item) bool {
@@ -1160,6 +1220,7 @@ func main() {
 			{Name: "keys", Body: keysSection, Bound: -1},
 			{Name: "templates", Body: templatesSection, Bound: -1},
 			{Name: "keysets", Body: keysetSection, Bound: -1},
+			{Name: "rsa-odd-modulus-keysets", Body: rsaOddSection, Bound: -1},
 			{Name: "foreign-encodings", Body: foreignSection, Bound: -1},
 			{Name: "catalogue", Body: catalogueSection, Bound: -1},
 		})
